@@ -150,7 +150,13 @@ def deep_merge_multi_update(dct, merge_dct):
         else:
             # copy the dictionary structure: later merges into dct must
             # not reach into merge_dct, which belongs to the caller
+            # (nor append to a '_multi_update' list the caller wrote)
             dct[k] = deep_copy_internal(merge_dct[k])
+            if k == MULTI_UPDATE_KEY and isinstance(dct[k], list):
+                dct[k] = list(dct[k])
+            elif isinstance(dct[k], dict) and isinstance(
+                    dct[k].get(MULTI_UPDATE_KEY), list):
+                dct[k][MULTI_UPDATE_KEY] = list(dct[k][MULTI_UPDATE_KEY])
     return dct
 
 
